@@ -32,6 +32,8 @@ type zzSess struct {
 	dmgByte  byte
 	paused   *trzszTransfer
 	pauseTicks int
+	wire     []byte // every byte the client wrote to the connection
+	escapeAll bool
 }
 
 var zzPauseTicks int
@@ -103,6 +105,7 @@ func (w *zzSessToServer) Write(p []byte) (int, error) {
 	s := w.s
 	idx := s.nToS
 	s.nToS++
+	s.wire = append(s.wire, p...)
 	c := make([]byte, len(p))
 	copy(c, p)
 	switch s.event {
@@ -147,10 +150,13 @@ func zzRunSession(upload bool, event, maxAt int, timeout int) (*zzSess, *zzSessR
 	verifFSAddDir(sroot)
 	n := verifNondetRange(1, verifBound("SIZE"))
 	content := make([]byte, n)
+	binary := verifBound("BINARY") != 0
 	for i := range content {
 		content[i] = verifNondetByte()
-		verifAssume(content[i] >= 'A')
-		verifAssume(content[i] <= 'Z')
+		if !binary {
+			verifAssume(content[i] >= 'A') // identity base64 stub: keep the payload inside the base64 alphabet
+			verifAssume(content[i] <= 'Z')
+		}
 	}
 	verifFSAddFile(sroot+"/a", content)
 	res := &zzSessResult{content: content, root: root, name: "a"}
@@ -187,6 +193,11 @@ func zzRunSession(upload bool, event, maxAt int, timeout int) (*zzSess, *zzSessR
 		args.Bufsize.Size = 1024
 		args.Quiet = true
 		args.Overwrite = res.overwrite
+		args.Binary = binary
+		if binary {
+			args.Escape = verifNondetBool()
+			s.escapeAll = args.Escape
+		}
 		go func() {
 			res.serverErr = recvFiles(s.V, args, tmuxModeType(0), 0)
 			if res.serverErr != nil {
@@ -201,6 +212,7 @@ func zzRunSession(upload bool, event, maxAt int, timeout int) (*zzSess, *zzSessR
 		args.Bufsize.Size = 1024
 		args.Quiet = true
 		args.Overwrite = res.overwrite
+		args.Binary = binary
 		files := []*sourceFile{{PathID: 0, AbsPath: sroot + "/a", RelPath: []string{"a"}, Size: int64(n)}}
 		go func() {
 			res.serverErr = sendFiles(s.V, files, args, tmuxModeType(0), 0)
@@ -362,4 +374,41 @@ func zzH_C18_session() {
 	} else {
 		verifReach("long-pause-error")
 	}
+}
+
+
+// a plain session (no event): used for the binary-mode runs of C01 / C04 / C14
+func zzH_C01_sessionPlain() {
+	upload := verifNondetBool()
+	s, res := zzRunSession(upload, zzEvNone, 0, 0)
+	verifAssert(res.serverDone, "the server side did not finish over a fault-free connection")
+	verifAssert(res.clientClear, "the client side did not finish over a fault-free connection")
+	verifAssert(res.serverErr == nil, "transfer failed over a fault-free connection")
+	verifAssert(zzSessFileIntact(res), "destination differs from the source")
+	if res.hadOld && !res.overwrite {
+		old := verifFSContent(res.root + "/a")
+		verifAssert(string(old) == "old", "pre-existing file modified without -y")
+	}
+	_ = s
+	verifReach("session-ok")
+}
+
+
+// C04 at session level: in a binary upload no protected byte appears in ANYTHING the client writes to the connection
+// between ACT and EXIT (protected set fixed from the property text), and the file still arrives intact
+func zzH_C04_session() {
+	s, res := zzRunSession(true, zzEvNone, 0, 0)
+	verifAssert(res.serverDone, "the server side did not finish over a fault-free connection")
+	verifAssert(res.serverErr == nil, "binary upload failed over a fault-free connection")
+	verifAssert(zzSessFileIntact(res), "uploaded file differs from the source")
+	prot := []byte{0x7e}
+	if s.escapeAll {
+		prot = []byte{0x7e, 0x02, 0x0d, 0x10, 0x11, 0x13, 0x18, 0x1b, 0x1d, 0x8d, 0x90, 0x91, 0x93, 0x9d}
+	}
+	for _, c := range s.wire {
+		for _, p := range prot {
+			verifAssert(c != p, "protected byte written to the connection during a binary upload")
+		}
+	}
+	verifReach("binary-upload")
 }
